@@ -4,6 +4,8 @@ Search-on-breakage driver for the C11 wiring table (`Gen/Wiring.lean`).
   wiring_driver rows    prints one line per falsifying row of `wiring_ok` / `iter_forwarding_ok` /
                         `coverage` (`<file:line> <what>`), or `none`
   wiring_driver count   prints the number of rows of each kind
+  wiring_driver forwards  the iterator methods `IterWrapper` defines (patdrive compares `size_hint`
+                        with std's only when it is among them)
 
 Without an argument the commands are read from stdin, one per line (line protocol).
 -/
@@ -15,8 +17,9 @@ open HipVerif.Gen.Wiring (tables table)
 def badRows : List String :=
   let t := tables
   (table.filter (fun r => !rowOk t r)).map (fun r => s!"{r.loc} {r.describe}")
-  ++ (t.forwards.filter (fun f => !fwdOk f)).map
-      (fun f => s!"{f.loc} IterWrapper {f.trait}::{f.method} forwards to inner {f.callee}")
+  ++ (t.forwards.filter (fun f => !fwdOk f)).map (fun f => s!"{f.loc} {f.describe}")
+  ++ (t.iterTypes.filter (fun it => !knownIterTypes.contains it.1)).map
+      (fun it => s!"{it.2} coverage: unclassified iterator type `{it.1}`")
   ++ (["next", "next_back"].filter (fun m => (t.forwards.filter (·.method == m)).length != 1)).map
       (fun m => s!"{t.iterNew.loc} IterWrapper has {(t.forwards.filter (·.method == m)).length} `{m}` methods (expected 1)")
   ++ (if newOk t.iterNew then [] else [s!"{t.iterNew.loc} IterWrapper::new does not store (source, inner) as given"])
@@ -30,6 +33,7 @@ def badRows : List String :=
 def step (cmd : String) : List String :=
   match cmd with
   | "rows" => if badRows.isEmpty then ["none"] else badRows
+  | "forwards" => [" ".intercalate (tables.forwards.map (·.method))]
   | "count" =>
     let t := tables
     [s!"rows={table.length} wrappers={t.wrappers.length} arms={t.arms.length} chain={t.chain.length} " ++
